@@ -872,7 +872,10 @@ func genC03(seed uint64, tier Tier) *Case {
 		// one transient read error on the index file while the caches are being refilled: the request that hits it
 		// may fail; what it loaded (or failed to load) must not stay in the caches as a wrong answer
 		c.Faults = append(c.Faults, &simos.Fault{Group: 7, Op: "read", Action: "eio", PathSuffix: ".index", Nth: g.r.Range(1, 12)})
-		c.Steps = append(c.Steps, Step{Kind: "stop"}, Step{Kind: "start"}, Step{Kind: "arm", Group: 7}, Step{Kind: "par", Clients: readers}, Step{Kind: "disarm"},
+		c.Steps = append(c.Steps, Step{Kind: "stop"}, Step{Kind: "start"}, Step{Kind: "arm", Group: 7},
+			// the battery itself runs into the error: a request may fail, an answer that is given has to be complete
+			Step{Kind: "validate", Label: "during-read-error"},
+			Step{Kind: "par", Clients: readers}, Step{Kind: "disarm"},
 			Step{Kind: "start"}, // (if the store gave up on the read error)
 			Step{Kind: "validate", Label: "after-read-error"})
 	}
